@@ -20,6 +20,7 @@ type ChildResult struct {
 	ExitCode int
 	Stderr   string
 	TimedOut bool
+	Fatal    string // first "fatal error:" or "panic:" line of stderr
 }
 
 // RunChild re-executes this binary with VH_CHILD=<name> and the JSON argument on stdin.
@@ -34,6 +35,12 @@ func RunChild(name string, arg interface{}, timeout time.Duration) ChildResult {
 	cmd.Stdout, cmd.Stderr = &so, &se
 	err := cmd.Run()
 	res := ChildResult{Stderr: tail(se.String(), 2000)}
+	for _, l := range strings.Split(se.String(), "\n") {
+		if strings.HasPrefix(l, "fatal error:") || strings.HasPrefix(l, "panic:") {
+			res.Fatal = l
+			break
+		}
+	}
 	for _, l := range strings.Split(so.String(), "\n") {
 		if l != "" {
 			res.Lines = append(res.Lines, l)
